@@ -373,6 +373,60 @@ def ob_retry_record_plain(ctx, num):
 LIST_MUTATORS = {"remove", "pop", "insert", "append", "extend", "clear", "sort", "reverse", "popleft", "appendleft"}
 
 
+def ob_inputs_not_mutated(ctx, num, key: str, label: str):
+    """The two lists a scheduler is called with (this tick's results and new pipelines) belong to the main loop, which goes on using them
+    after the call (`len(new_pipelines)` is the number of pipelines created in the tick): the scheduler, and the same-module functions it
+    hands them to, never add to, remove from or reorder them - directly or through a plain alias (`todo = pipelines`)."""
+    P = ctx.P
+    f0 = scheduler(P, key)
+    params = f0.params()
+    if len(params) < 3:
+        ctx.ob(num, "K1", f"[{label}] the scheduler takes (s, results, pipelines)", False, f0, f0.node, detail=f"parameters: {params}")
+        return
+    seen = set()
+    work = [(f0, set(params[1:3]), 0)]
+    bad = []
+    n = 0
+    while work:
+        f, tainted, depth = work.pop()
+        k = (f.mod.rel, f.qual, tuple(sorted(tainted)))
+        if k in seen or not tainted:
+            continue
+        seen.add(k)
+        n += 1
+        names = set(tainted)
+        grew = True
+        while grew:
+            grew = False
+            for x in own_nodes(f.node):
+                if isinstance(x, ast.Assign) and len(x.targets) == 1 and isinstance(x.targets[0], ast.Name) and isinstance(x.value, ast.Name) and x.value.id in names \
+                        and x.targets[0].id not in names:
+                    names.add(x.targets[0].id)
+                    grew = True
+        for x in own_nodes(f.node):
+            if isinstance(x, ast.Call) and isinstance(x.func, ast.Attribute) and x.func.attr in LIST_MUTATORS and isinstance(x.func.value, ast.Name) and x.func.value.id in names:
+                bad.append((f, x))
+            elif isinstance(x, ast.AugAssign) and isinstance(x.target, ast.Name) and x.target.id in names:
+                bad.append((f, x))
+            elif isinstance(x, (ast.Subscript,)) and isinstance(x.ctx, (ast.Store, ast.Del)) and isinstance(x.value, ast.Name) and x.value.id in names:
+                bad.append((f, x))
+            elif isinstance(x, ast.Call) and isinstance(x.func, ast.Name) and x.func.id in f.mod.funcs and depth < 3:
+                h = f.mod.funcs[x.func.id]
+                hp = h.params()
+                t2 = set()
+                for i, a in enumerate(x.args):
+                    if isinstance(a, ast.Name) and a.id in names and i < len(hp):
+                        t2.add(hp[i])
+                for kw in x.keywords:
+                    if kw.arg and isinstance(kw.value, ast.Name) and kw.value.id in names and kw.arg in hp:
+                        t2.add(kw.arg)
+                if t2:
+                    work.append((h, t2, depth + 1))
+    ctx.ob(num, "K1", f"[{label}] the lists the scheduler is called with (results, new pipelines) are only read: the main loop counts and reports from them after the call",
+           not bad, bad[0][0] if bad else f0, stmt_of(bad[0][1]) if bad else f0.node, construct="results / pipelines are not mutated",
+           detail=f"mutations: {[(b[0].qual, norm.U(b[1])[:70]) for b in bad]}" if bad else f"{n} function(s) followed; no append/extend/remove/sort/+=/item store on the parameters or their aliases")
+
+
 def ob_no_mutation_while_iterating(ctx, num, key: str, label: str):
     """No `for x in L` loop of the scheduler changes L inside its own body: removing or inserting while iterating makes the loop skip or
     repeat elements (a job that is skipped stays queued for the round although it could have been placed)."""
